@@ -1,7 +1,9 @@
 ------------------------------- MODULE TraceCursor -------------------------------
 (* Trace specification for the 18 iterator types (family "cur", C08).            *)
 (* A "NewIter" event starts a walk: it carries the container's sequence of       *)
-(* <<index or key, value>> pairs; the iterator is fresh, i.e. at position -1.    *)
+(* <<index or key, value>> pairs; the iterator is fresh, i.e. at position -1     *)
+(* (e.at = -1), or was made by RedBlackTree.IteratorAt(GetNode(key)) and starts  *)
+(* on the position e.at of that key.                                             *)
 (* The cursor position is HIDDEN specification state: it is never logged, the    *)
 (* spec computes it from the calls (AbsCursor!Move) and checks what the real     *)
 (* iterator returned and exposed after every call.                               *)
@@ -34,7 +36,7 @@ Step ==
   /\ l <= Len(Trace)
   /\ LET e == Trace[l] IN
      /\ IF Obl(Prop, e) = TRUE THEN TRUE ELSE PrintT("REJECT|" \o ToString(l))
-     /\ IF e.op = "NewIter" THEN seq' = e.seq /\ pos' = -1
+     /\ IF e.op = "NewIter" THEN seq' = e.seq /\ pos' = e.at      \* -1, or the position IteratorAt(node) starts on
         ELSE IF e.op = "EndIter" THEN UNCHANGED <<seq, pos>>
         ELSE seq' = seq /\ pos' = Move(seq, pos, e.op, e.p)
   /\ l' = l + 1
